@@ -1,7 +1,8 @@
 /-
-  The futex word: waiter count + READY bit; no lost wake-up; READY observed ⇒ the setter has
-  published.  Everything here is under the NoWrap hypothesis `adds < 2^31` (fewer than 2^31
-  slow-path waits on one future), which is necessary: see `fut_wrap_counterexample`.
+  The futex word: "somebody waits" flag (bit 0, set with `fetch_or`) + READY (bit 31); no lost
+  wake-up; READY observed ⇒ the setter has published.  The word only ever holds 0, 1, READY, READY|1
+  (before the fix e39f62f the low bits were a counter that was never decremented and could carry into
+  READY after 2^31 waits; the theorems then needed a NoWrap hypothesis).
 -/
 import Babylon.Future.LemmasS
 
@@ -18,29 +19,37 @@ def fk : Pc → Bool
   | .ret (.waited true ..) => true
   | _ => false
 
-structure InvF' (s : State) : Prop where
-  word0 : s.xchgDone = false → s.futex = s.adds
-  word1 : s.xchgDone = true → s.addsAtXchg ≤ s.adds ∧ s.futex = readyMask + (s.adds - s.addsAtXchg)
-  w1 : ∀ t v, s.pc t = .w1 v → hasReady v = false ∧ 1 ≤ s.adds
-  f3 : ∀ t w to v, s.pc t = .f3 w to v → hasReady v = false ∧ 1 ≤ s.adds
-  f5 : ∀ t w v, s.pc t = .f5 w v → 1 ≤ s.adds ∧ (hasReady v = true → s.xchgDone = true)
-  w2 : ∀ t, s.pc t = .w2 → 1 ≤ s.adds
-  f4 : ∀ t w, s.pc t = .f4 w → 1 ≤ s.adds
-  wS : ∀ t e, s.pc t = .wS e → 1 ≤ s.adds ∧ e ≤ s.wakes ∧
-        (s.wakes ≤ e → s.xchgDone = true → ∀ u, s.firer = some u → isS3 (s.pc u) = true)
-  fS : ∀ t w e, s.pc t = .fS w e → 1 ≤ s.adds ∧ e ≤ s.wakes ∧
-        (s.wakes ≤ e → s.xchgDone = true → ∀ u, s.firer = some u → isS3 (s.pc u) = true)
-  gR : ∀ t, s.pc t = .gR → s.xchgDone = true
-  retT : ∀ t b st to n, s.pc t = .ret (.waited true b st to n) → s.xchgDone = true
-
-/-- NoWrap-guarded form: the invariant holds as long as fewer than 2^31 slow-path waits happened -/
-def InvF (s : State) : Prop := s.adds < 2 ^ 31 → InvF' s
+/-- the four values the futex word takes -/
+def wordOpen (x : Nat) : Prop := x = 0 ∨ x = 1
+def wordReady (x : Nat) : Prop := x = readyMask ∨ x = readyMask + 1
 
 theorem hasReady_small {v : Nat} (h : v < 2 ^ 31) : hasReady v = false := by
   unfold hasReady readyMask; exact decide_eq_false (by omega)
 
 theorem hasReady_ready {k : Nat} (h : k < 2 ^ 31) : hasReady (readyMask + k) = true := by
   unfold hasReady readyMask; exact decide_eq_true (by omega)
+
+theorem wordOpen_or {x : Nat} (h : wordOpen x) : x ||| 1 = 1 ∧ hasReady x = false ∧ hasReady (x ||| 1) = false := by
+  rcases h with rfl | rfl <;> decide
+
+theorem wordReady_or {x : Nat} (h : wordReady x) :
+    x ||| 1 = readyMask + 1 ∧ hasReady x = true ∧ hasReady (x ||| 1) = true ∧ 0 < x := by
+  rcases h with rfl | rfl <;> decide
+
+structure InvF (s : State) : Prop where
+  word0 : s.xchgDone = false → wordOpen s.futex
+  word1 : s.xchgDone = true → wordReady s.futex
+  w1 : ∀ t v, s.pc t = .w1 v → hasReady v = false ∧ (s.xchgDone = false → s.futex = 1)
+  f3 : ∀ t w to v, s.pc t = .f3 w to v → hasReady v = false ∧ (s.xchgDone = false → s.futex = 1)
+  f5 : ∀ t w v, s.pc t = .f5 w v → (s.xchgDone = false → s.futex = 1) ∧ (hasReady v = true → s.xchgDone = true)
+  w2 : ∀ t, s.pc t = .w2 → (s.xchgDone = false → s.futex = 1)
+  f4 : ∀ t w, s.pc t = .f4 w → (s.xchgDone = false → s.futex = 1)
+  wS : ∀ t e, s.pc t = .wS e → (s.xchgDone = false → s.futex = 1) ∧ e ≤ s.wakes ∧
+        (s.wakes ≤ e → s.xchgDone = true → ∀ u, s.firer = some u → isS3 (s.pc u) = true)
+  fS : ∀ t w e, s.pc t = .fS w e → (s.xchgDone = false → s.futex = 1) ∧ e ≤ s.wakes ∧
+        (s.wakes ≤ e → s.xchgDone = true → ∀ u, s.firer = some u → isS3 (s.pc u) = true)
+  gR : ∀ t, s.pc t = .gR → s.xchgDone = true
+  retT : ∀ t b st to n, s.pc t = .ret (.waited true b st to n) → s.xchgDone = true
 
 theorem and_two_pow' (v i : Nat) : v &&& 2^i = if v.testBit i then 2^i else 0 := by
   apply Nat.eq_of_testBit_eq; intro j
@@ -62,62 +71,59 @@ theorem hasReady_eq_land (v : Nat) : hasReady v = (v &&& readyMask != 0) := by
   by_cases hb : v / 2 ^ 31 % 2 = 1 <;> simp [hb]
 
 theorem InvF.init (n : Option Nat) : InvF (State.init n) := by
-  intro _
-  constructor <;> intros <;> (cases n <;> simp_all [State.init] <;> try grind)
+  constructor <;> intros <;> (cases n <;> simp_all [State.init, wordOpen] <;> try grind)
 
-theorem InvF'.frame {s s' : State} (hi : InvF' s) (t : Nat) (p' : Pc)
+theorem InvF.frame {s s' : State} (hi : InvF s) (t : Nat) (p' : Pc)
     (hpc : s'.pc = upd s.pc t p') (hp' : fk p' = false) (hold : isS3 (s.pc t) = false)
-    (h1 : s'.futex = s.futex) (h2 : s'.adds = s.adds) (h3 : s'.xchgDone = s.xchgDone) (h4 : s'.addsAtXchg = s.addsAtXchg)
-    (h5 : s'.wakes = s.wakes) (h6 : s'.firer = s.firer) : InvF' s' := by
+    (h1 : s'.futex = s.futex) (h3 : s'.xchgDone = s.xchgDone)
+    (h5 : s'.wakes = s.wakes) (h6 : s'.firer = s.firer) : InvF s' := by
   obtain ⟨word0, word1, w1, f3, f5, w2, f4, wS, fS, gR, retT⟩ := hi
-  constructor <;> intros <;> simp only [hpc, h1, h2, h3, h4, h5, h6] at * <;> grind [upd_apply, fk, isS3]
+  constructor <;> intros <;> simp only [hpc, h1, h3, h5, h6] at * <;> grind [upd_apply, fk, isS3]
 
 set_option maxHeartbeats 4000000 in
 theorem InvF.step {s s' : State} (h : Step s s') (hP : InvP s) (hS : InvS s) (hi : InvF s) : InvF s' := by
-  intro hb
+  have hi' := hi
   have hP' := hP
   obtain ⟨ho, hp, noPend, c0_pend, pend_c0, pend_nodup, count_eq, count_lt, fired, zero⟩ := hP
   obtain ⟨cons_le, seals_le, xchg_seal, storage_none, storage_some, head_none, none_fired, latch_val, at_p0, at_s0, at_s1, at_s2, at_s3, at_s4, done, open_det⟩ := hS
+  have hxs : s.firer = none → s.xchgDone = false := fun hn => by
+    have := none_fired hn
+    cases hx : s.xchgDone
+    · rfl
+    · have := xchg_seal hx; omega
+  have hwo := fun hx => wordOpen_or (hi.word0 hx)
+  have hwr := fun hx => wordReady_or (hi.word1 hx)
   cases h with
   | act addr t h x l hst =>
-    cases hpc : s.pc t <;> simp only [stepThread, waitLoop, hpc, waitAddOperand, waitAddLocalBump, waitForAddOperand, waitForAddLocalBump, wakeIfWaitersAbove] at hst
+    cases hpc : s.pc t <;> simp only [stepThread, waitLoop, hpc, waitOrOperand, waitOrLocalMask, waitForOrOperand, waitForOrLocalMask, wakeIfWaitersAbove] at hst
     all_goals (try split at hst)
     all_goals (try split at hst)
     all_goals (try split at hst)
     all_goals (try simp only [Option.some.injEq, Prod.mk.injEq, reduceCtorEq] at hst)
     all_goals (try (obtain ⟨rfl, rfl⟩ := hst))
     all_goals (try (exfalso; assumption))
-    all_goals (dsimp only at hb; have hi' := hi (by omega))
     all_goals (have hot := ho t)
     all_goals (have hc0f : ∀ d, s.pc t = .c0 d → s.firer = none := fun d h => (hP'.c0_facts h).1)
-    all_goals (have hxr : s.xchgDone = true → hasReady s.futex = true := fun hx => by
-                 have := hi'.word1 hx; rw [this.2]; exact hasReady_ready (by omega))
-    all_goals (have hxs : s.firer = none → s.xchgDone = false := fun hn => by
-                 have := none_fired hn
-                 cases hx : s.xchgDone
-                 · rfl
-                 · have := xchg_seal hx; omega)
     all_goals (first
-      | (refine InvF'.frame hi' t _ rfl ?_ ?_ rfl rfl rfl rfl rfl rfl <;> (simp [hpc, fk, isS3]; done))
+      | (refine InvF.frame hi' t _ rfl ?_ ?_ rfl rfl rfl rfl <;> (simp [hpc, fk, isS3]; done))
       | (obtain ⟨word0, word1, w1, f3, f5, w2, f4, wS, fS, gR, retT⟩ := hi'
-         constructor <;> intros <;> (try dsimp only at *) <;> first | assumption | grind [upd_apply, isS3, inSet, hasReady_small, hasReady_ready, u32, readyMask]))
+         cases hx : s.xchgDone <;>
+         (first
+           | (have hwo' := hwo hx; constructor <;> intros <;> (try dsimp only at *) <;> first | assumption | grind [upd_apply, isS3, inSet, wordOpen, wordReady, readyMask])
+           | (have hwr' := hwr hx; constructor <;> intros <;> (try dsimp only at *) <;> first | assumption | grind [upd_apply, isS3, inSet, wordOpen, wordReady, readyMask]))))
   | tick d =>
-    obtain ⟨word0, word1, w1, f3, f5, w2, f4, wS, fS, gR, retT⟩ := hi hb
+    obtain ⟨word0, word1, w1, f3, f5, w2, f4, wS, fS, gR, retT⟩ := hi
     constructor <;> intros <;> (try dsimp only at *) <;> first | assumption | grind
   | set t v hidle hl hsc =>
     have hnf := hp hl hsc
-    have hx : s.xchgDone = false := by
-      have := none_fired hnf
-      cases hx : s.xchgDone
-      · rfl
-      · have := xchg_seal hx; omega
-    obtain ⟨word0, word1, w1, f3, f5, w2, f4, wS, fS, gR, retT⟩ := hi hb
+    have hx := hxs hnf
+    obtain ⟨word0, word1, w1, f3, f5, w2, f4, wS, fS, gR, retT⟩ := hi
     constructor <;> intros <;> (try dsimp only [callSet] at *) <;> first | assumption | grind [upd_apply, isS3]
-  | down t d hidle hl h1 hb' => refine InvF'.frame (hi hb) t _ rfl ?_ ?_ rfl rfl rfl rfl rfl rfl <;> simp [hidle, fk, isS3]
-  | get t hidle => refine InvF'.frame (hi hb) t _ rfl ?_ ?_ rfl rfl rfl rfl rfl rfl <;> simp [hidle, fk, isS3]
-  | waitFor t tau hidle h1 h2 => refine InvF'.frame (hi hb) t _ rfl ?_ ?_ rfl rfl rfl rfl rfl rfl <;> simp [hidle, fk, isS3]
-  | reg t id hidle hs => refine InvF'.frame (hi hb) t _ rfl ?_ ?_ rfl rfl rfl rfl rfl rfl <;> simp [hidle, fk, isS3]
-  | ready t hidle => refine InvF'.frame (hi hb) t _ rfl ?_ ?_ rfl rfl rfl rfl rfl rfl <;> simp [hidle, fk, isS3]
+  | down t d hidle hl h1 hb' => refine InvF.frame hi' t _ rfl ?_ ?_ rfl rfl rfl rfl <;> simp [hidle, fk, isS3]
+  | get t hidle => refine InvF.frame hi' t _ rfl ?_ ?_ rfl rfl rfl rfl <;> simp [hidle, fk, isS3]
+  | waitFor t tau hidle h1 h2 => refine InvF.frame hi' t _ rfl ?_ ?_ rfl rfl rfl rfl <;> simp [hidle, fk, isS3]
+  | reg t id hidle hs => refine InvF.frame hi' t _ rfl ?_ ?_ rfl rfl rfl rfl <;> simp [hidle, fk, isS3]
+  | ready t hidle => refine InvF.frame hi' t _ rfl ?_ ?_ rfl rfl rfl rfl <;> simp [hidle, fk, isS3]
 
 theorem InvF.reach {s : State} (h : Reachable Init Step s) : InvF s := by
   induction h with
